@@ -62,6 +62,8 @@ const Prelude = `(set-option :produce-models true)
 (declare-fun errstr (Any) String)
 (declare-fun key48 ((Array Int Int) Int Int) (Array Int Int))
 (assert (forall ((r (Array Int Int)) (o Int) (n Int) (i Int)) (! (= (select (key48 r o n) i) (ite (and (<= 0 i) (< i 48) (< i n)) (select r (+ o i)) 0)) :pattern ((select (key48 r o n) i)))))
+(declare-fun owner (Int) Int)
+(assert (forall ((r Int)) (! (=> (>= r (- 1000)) (= (owner r) r)) :pattern ((owner r)))))
 (declare-fun idx (Int Int) Int)
 (assert (forall ((o Int) (i Int)) (! (= (idx o i) (+ o i)) :pattern ((idx o i)))))
 (declare-fun snapb ((Array Int Int) Int Int) Bytes)
